@@ -10,10 +10,11 @@ set_option synthInstance.maxSize 4096
 
 /-- pushing a fresh `frameset` in the frameset phase -/
 theorem Core.pushFs {s : State} {r fs : Id} {up : List Id} (h : Core s r up (.pf fs)) {x : Id}
-    (hx : Loose s.dom x) (hfresh : x ∉ s.openElems) (hn : nm s.dom x = hN "frameset") :
+    (hx : Loose s.dom x) (hfresh : x ∉ s.openElems) (hn : nm s.dom x = hN "frameset")
+    (hadj : AdjD s.dom (s.openElems ++ [x])) :
     Core { s with openElems := s.openElems ++ [x] } r (up ++ [x]) (.pf fs) := by
   refine ⟨h.late.push hx, by show s.openElems ++ [x] = _; rw [h.stack]; rfl, h.rdoc, ?_, ?_, h.afn, ?_, h.tmm, h.form,
-    h.rtu, h.rnd, h.kids, h.elems, ?_, h.afx⟩
+    h.rtu, h.rnd, h.kids, h.elems, ?_, h.afx, hadj⟩
   · show (s.openElems ++ [x]).Nodup
     rw [List.nodup_append]
     exact ⟨h.nodup, by simp, by intro a ha b hb; simp at hb; subst hb; rintro rfl; exact hfresh ha⟩
@@ -122,6 +123,7 @@ theorem modeOk_inFrameset : ModeOk .inFrameset := by
         have hc1 : Core s1 r ((fs :: up') ++ [el]) (.pf fs) := by
           rw [hs1]
           exact hc5.pushFs ⟨hres.elel, hres.loose⟩ (by rw [f1]; exact hres.notOpen hc) (by rw [hres.nmel, hn]; rfl)
+            hres.adjp
         refine Good.mk' ⟨hc1, ?_⟩
         refine fitsM_of_fits (om := .inFrameset) (by decide) (by decide) (by rw [hs1]; show s5.mode = _; rw [f3]; exact hm) ?_
         refine ⟨fs, up' ++ [el], rfl, rfl, fun x hx => ?_⟩
@@ -381,6 +383,8 @@ theorem framesetArm {tag : Tag} (h : tag.isStart ["frameset"] = true) : Frameset
     rintro rfl; rw [hhn] at hbn'; revert hbn'; decide
   -- remove_from_parent
   obtain ⟨_, s1, e1, e2⟩ := bind_ok.mp e
+  obtain ⟨hadj1, _⟩ := removeFromParent_adj hc.adj
+    (Or.inr ⟨by rw [hc.stack]; simp, by rw [hbn']; decide⟩) e1
   obtain ⟨out, e1'⟩ := sinkUnit_ok.mp e1
   obtain ⟨d, hd, rfl⟩ := sink_ok.mp e1'
   have hrem := apply_remove hd
@@ -413,7 +417,10 @@ theorem framesetArm {tag : Tag} (h : tag.isStart ["frameset"] = true) : Frameset
     simp [hh0b]
   have hc2 : Core s2 r [] .p1 := by
     refine ⟨hl2, hst2, by rw [hdom2, hk0]; exact hc.rdoc, by rw [hst2]; simp, by rw [hst2]; exact TG.single _ _,
-      ?_, ?_, ?_, ?_, by rw [hdom2]; exact hrtu, ?_, ?_, ?_, (by intro y hy; cases hy), ?_⟩
+      ?_, ?_, ?_, ?_, by rw [hdom2]; exact hrtu, ?_, ?_, ?_, (by intro y hy; cases hy), ?_,
+      (by
+        rw [hst2, hdom2]
+        exact hadj1.sub hc.nodup (by rw [hc.stack]; exact List.Sublist.cons_cons _ (List.nil_sublist _)))⟩
     · intro x t hx
       have hx' : FormatEntry.element x t ∈ s.activeFormatting := by rw [hs2] at hx; exact hx
       obtain ⟨a1, a2, a3⟩ := hc.afn x t hx'
@@ -557,7 +564,7 @@ theorem RFm.setAF {s : State} {r fs : Id} {up : List Id} (h : RFm s r up fs) {af
   have hc := h.core
   have hl : Late { s with activeFormatting := af } := hc.late.free rfl rfl rfl rfl rfl rfl rfl rfl rfl
   exact ⟨⟨hl, hc.stack, hc.rdoc, hc.nodup, hc.tg, ha, hc.tc, hc.tmm, hc.form, hc.rtu, hc.rnd, hc.kids, hc.elems, hc.bh,
-    hx⟩, h.fmt⟩
+    hx, hc.adj⟩, h.fmt⟩
 
 theorem RFm.qs {s s' : State} {r fs : Id} {up : List Id} (h : RFm s r up fs) (q : QS s s') : RFm s' r up fs :=
   ⟨h.core.qs q, fun x hx => by rw [q.nm]; exact h.fmt x hx⟩
